@@ -17,9 +17,12 @@ FIELDS = ["id", "name"]
 GOOD = [["1", "ab"], ["2", "c"], ["3", "xyz"], ["42", "ab"], ["0", "c"], ["7", "q"], ["8", "zz"], ["9", "ab"], ["10", "b"]]
 
 
-def build_table(header, data_rows, bad_at, bad_kind, multiline_header=False):
+ALLOWED = [("Allowed characters", "32, 48...57, 97...122")]  # blank, digits, lower-case letters: header rows hold other characters
+
+
+def build_table(header, data_rows, bad_at, bad_kind, multiline_header=False, allowed=False):
     # a header record may span several physical lines (quoted line breaks) and hold quotes: it is still one row
-    header_row = ["h\nd", 'h"d\r\nr'] if multiline_header else ["hd", "hdr"]
+    header_row = ["h\nd", 'h"d\r\nr'] if multiline_header else (["H!", "#D~"] if allowed else ["hd", "hdr"])
     table = [list(header_row) for _ in range(header)] + [list(GOOD[i % len(GOOD)]) for i in range(data_rows)]
     if bad_at is not None:
         if bad_kind == "cell":
@@ -30,13 +33,15 @@ def build_table(header, data_rows, bad_at, bad_kind, multiline_header=False):
             table[bad_at - 1] = ["5"]
         elif bad_kind == "long":
             table[bad_at - 1] = ["5", "ab", "zz"]
+        elif bad_kind == "char":  # a character outside the allowed range (only with an allowed-characters declaration)
+            table[bad_at - 1] = ["5", "aB"]
     return table
 
 
 def cid_file(config):
     decls = readermachine.decls_for(config)
-    rows = harness.cid_rows(config["preset"], decls, (), config["header"], line_delimiter="lf")
-    path = os.path.join(readermachine.tmpdir(), "cid_%s_%d.csv" % (config["preset"], config["header"]))
+    rows = harness.cid_rows(config["preset"], decls, (), config["header"], line_delimiter="lf", extra=list(config.get("extra", ())))
+    path = os.path.join(readermachine.tmpdir(), "cid_%s_%d%s.csv" % (config["preset"], config["header"], "_allowed" if config.get("extra") else ""))
     if not os.path.exists(path):
         with open(path, "w", newline="", encoding="utf-8") as cid_stream:
             csv.writer(cid_stream).writerows(rows)
@@ -52,7 +57,9 @@ def judge(case, part):
     config = {"preset": case["preset"], "header": case["header"], "fields": FIELDS, "checks": []}
     decls = readermachine.decls_for(config)
     header, limit, bad_at, bad_kind = case["header"], case["limit"], case["bad_at"], case["bad_kind"]
-    table = build_table(header, case["rows"], bad_at, bad_kind, case.get("multiline_header", False))
+    table = build_table(header, case["rows"], bad_at, bad_kind, case.get("multiline_header", False), case.get("allowed", False))
+    if case.get("allowed"):
+        config["extra"] = ALLOWED
     rejects = bad_at is not None and bad_at > header and (limit is None or bad_at <= limit)
     tag = "%s|%%s" % case["preset"]
     part.evaluations += 1
@@ -178,8 +185,10 @@ def enumerate_cases(preset, header, max_rows=6):
                     if preset == "fixed" and bad_at <= header and kind == "cell2":
                         pass
                     cases.append({"preset": preset, "header": header, "rows": rows, "limit": limit, "bad_at": bad_at, "bad_kind": kind})
+    # with an allowed-characters declaration: header rows and rows behind the limit may hold any character
+    cases += [dict(case, allowed=True, bad_kind="char" if case["bad_kind"] == "cell2" else case["bad_kind"]) for case in cases if case["rows"] <= 4 and case["bad_kind"] in (None, "cell", "cell2")]
     if preset == "delimited" and header:
-        cases += [dict(case, multiline_header=True) for case in cases if case["rows"] <= 4 and case["bad_kind"] in (None, "cell", "short")]
+        cases += [dict(case, multiline_header=True) for case in cases if case["rows"] <= 4 and case["bad_kind"] in (None, "cell", "short") and not case.get("allowed")]
     return cases
 
 
